@@ -683,6 +683,10 @@ static int write_container_start(cif_container_tp *block, void *context) {
 
     if ((result == CIF_OK) && IS_CIF1(context)) {
         result = cif_validate_cif11_characters(code, NULL);
+        if (result != CIF_OK) {
+            /* the code will not be written, but it still must be released */
+            free(code);
+        }
     }
     if (result == CIF_OK) {
         result = ((u_fprintf(CONTEXT_UFILE(context), this_header_type, code) > 7) ? CIF_TRAVERSE_CONTINUE : CIF_ERROR);
